@@ -30,7 +30,9 @@ TCPCM == "ingress/tcp"
 
 (* an event: e.res, e.name, e.op; ConfigMap: e.v (data version); Ingress/IngressClass: e.old, e.new (valid for this
    controller before / after); Pod: e.term (deletionTimestamp changed) *)
-CMEvents == [res : {"ConfigMap"}, name : {GlobalCM, TCPCM, "ingress/other"}, op : Ops, v : 1..3]
+(* ingress/other: another ConfigMap of the namespace of the controller (IngressClass parameters live there): accepted, it
+   has a link and an object entry but no data of its own in the batch; x/other: a ConfigMap of another namespace: ignored *)
+CMEvents == [res : {"ConfigMap"}, name : {GlobalCM, TCPCM, "ingress/other", "x/other"}, op : Ops, v : 1..3]
 IngEvents == [res : {"Ingress"}, name : {"a/i1", "a/i2"}, op : Ops, old : BOOLEAN, new : BOOLEAN]
 ClsEvents == [res : {"IngressClass"}, name : {"haproxy"}, op : Ops, old : BOOLEAN, new : BOOLEAN]
 PlainEvents == [res : {"Service", "Secret", "Endpoints"}, name : {"a/x", "a/y"}, op : Ops]
@@ -42,7 +44,7 @@ Events == CMEvents \cup IngEvents \cup ClsEvents \cup PlainEvents \cup PodEvents
 
 (* the predicates of the handlers *)
 Accepted(e) ==
-    CASE e.res = "ConfigMap" -> e.name \in {GlobalCM, TCPCM}
+    CASE e.res = "ConfigMap" -> e.name # "x/other"
       [] e.res \in {"Ingress", "IngressClass", "GatewayClass"} ->
             (CASE e.op = "add" -> e.new [] e.op = "del" -> e.old [] OTHER -> e.old \/ e.new)
       [] e.res = "Pod" -> (CASE e.op = "add" -> FALSE [] e.op = "update" -> e.term [] OTHER -> TRUE)
@@ -58,7 +60,7 @@ EmptyCh(gcur, tcur) ==
 
 (* add / upd / del of the handler of e.res *)
 Apply(c, e) ==
-    CASE e.res = "ConfigMap" /\ e.op # "del" ->
+    CASE e.res = "ConfigMap" /\ e.op # "del" /\ e.name \in {GlobalCM, TCPCM} ->
             IF e.name = GlobalCM THEN [c EXCEPT !.gnew = e.v] ELSE [c EXCEPT !.tnew = e.v]
       [] e.res = "Ingress" /\ e.op = "add" -> [c EXCEPT !.ia = Append(@, e.name)]
       [] e.res = "Ingress" /\ e.op = "del" -> [c EXCEPT !.id = Append(@, e.name)]
